@@ -1,4 +1,5 @@
 import PsModel.Lemmas.C19
+import PsModel.Lemmas.C19Kernel
 import PsModel.Model.C19Sched
 /-!
 # C19 – property theorems (kernel framing, authentication, reply correlation)
@@ -273,5 +274,486 @@ theorem C19_regress_frame_by_frame_writes :
     (recvN 2 [wire ([[[1], [2]], [[3], [4]]].map (senderWrites false)) [0, 1, 0, 1]]).toOption = some ([[[1], [3], [2]], [[4]]], []) ∧
     (recvN 2 [wire ([[[1], [2]], [[3], [4]]].map (senderWrites true)) [0, 1, 0, 1]]).toOption = some ([[[1], [2]], [[3], [4]]], []) := by
   decide
+
+/-! # Round 4: the rest of the kernel (greeting, wire messages, every message type, control, heartbeat, shutdown) -/
+
+/-! ## (f) the ZMTP greeting -/
+
+/-- **The handshake never reads past the greeting** and is independent of how TCP fragments it: given 64 greeting bytes
+followed by anything, an accepting handshake leaves exactly what follows the greeting unread, has written the kernel's
+own greeting and the READY command, and a handshake that does not look at the bytes (`validate = false`) accepts. -/
+theorem C19_handshake_reads_exactly (validate : Bool) (ty g rest : Bytes) (chunks : List Bytes)
+    (hg : g.length = 64) (hc : chunks.flatten = g ++ rest) :
+    ((handshake validate ty chunks).status = .ok →
+        (handshake validate ty chunks).rest.flatten = rest ∧
+        (handshake validate ty chunks).written = HS_WRITES.flatten ++ readyCmd ty) ∧
+    (validate = false → (handshake validate ty chunks).status = .ok) := by
+  obtain ⟨d0, d1, d2, rfl, h0, h1, h2⟩ := split64 g hg
+  have hk := handshake_cases validate ty d0 d1 d2 rest chunks h0 h1 h2 hc
+  refine ⟨?_, ?_⟩
+  · intro hok
+    split at hk
+    · rw [hk] at hok; exact absurd hok (by simp)
+    · exact ⟨hk.2.2, hk.2.1⟩
+  · intro hv
+    subst hv
+    simpa using hk.1
+
+/-- **The handshake accepts exactly the greetings of the grammar** – for a handshake that validates (signature bytes,
+major version ≥ 3, mechanism NULL), under every fragmentation. -/
+theorem C19_handshake_exact (ty g rest : Bytes) (chunks : List Bytes) (hg : g.length = 64) (hc : chunks.flatten = g ++ rest) :
+    (handshake true ty chunks).status = .ok ↔ ValidGreeting g := by
+  obtain ⟨d0, d1, d2, rfl, h0, h1, h2⟩ := split64 g hg
+  rw [← stages_iff_valid d0 d1 d2 h0 h1 h2]
+  have hk := handshake_cases true ty d0 d1 d2 rest chunks h0 h1 h2 hc
+  cases s0 : stageOk 0 d0 <;> cases s1 : stageOk 1 d1 <;> cases s2 : stageOk 2 d2 <;> simp [s0, s1, s2] at hk ⊢ <;> simp [hk]
+
+/-- a stream that ends inside the greeting is never accepted -/
+theorem C19_handshake_truncated (validate : Bool) (ty : Bytes) (chunks : List Bytes) (h : chunks.flatten.length < 64) :
+    (handshake validate ty chunks).status ≠ .ok := handshake_short validate ty chunks h
+
+/-- **The code as it is** accepts every greeting of the grammar (whatever it validates) … -/
+theorem C19_handshake_partial (ty g rest : Bytes) (chunks : List Bytes) (hg : g.length = 64)
+    (hc : chunks.flatten = g ++ rest) (hv : ValidGreeting g) :
+    (handshake Current.validate ty chunks).status = .ok ∧ (handshake Current.validate ty chunks).rest.flatten = rest := by
+  have hok : (handshake Current.validate ty chunks).status = .ok := by
+    cases hcv : Current.validate
+    · exact (C19_handshake_reads_exactly false ty g rest chunks hg hc).2 rfl
+    · exact (C19_handshake_exact ty g rest chunks hg hc).2 hv
+  exact ⟨hok, ((C19_handshake_reads_exactly _ ty g rest chunks hg hc).1 hok).1⟩
+
+/-- … what the kernel itself writes is a greeting of the grammar … -/
+theorem C19_own_greeting_valid : ValidGreeting HS_WRITES.flatten :=
+  ⟨[0, 0, 0, 0, 0, 0, 0, 1], 3, 0, List.replicate 32 0, by decide, by decide, by decide, by decide⟩
+
+/-- … and its READY command (for the three socket types the kernel uses) is a well-formed command frame that its own
+receive routine parses and skips: a message following it is received intact. -/
+theorem C19_ready_skipped (ty : Bytes) (hty : ty ∈ [HS_ROUTER, [82, 69, 80], [80, 85, 66]])
+    (ps : List Bytes) (rest : Bytes) (chunks : List Bytes)
+    (hne : ps ≠ []) (hlen : ∀ p ∈ ps, p.length < 2 ^ 64) (hc : chunks.flatten = readyCmd ty ++ encodeMultipart ps ++ rest) :
+    flatRes (recvMultipart chunks) = .ok (ps, rest) := by
+  have hb : readyCmd ty = [4, (cmdBody HS_CMD (readyParams ty)).length] ++ cmdBody HS_CMD (readyParams ty)
+      ∧ cmdOk (cmdBody HS_CMD (readyParams ty)) = true := by
+    simp only [List.mem_cons, List.mem_nil_iff, or_false] at hty
+    rcases hty with rfl | rfl | rfl <;> decide
+  obtain ⟨hb1, hb2⟩ := hb
+  have hge : ∀ qs : List Bytes, qs.length ≤ (encodeMultipart qs).length := by
+    intro qs
+    induction qs with
+    | nil => simp
+    | cons q rs ih =>
+      cases rs with
+      | nil => simp only [encodeMultipart, encFrame]; split <;> simp
+      | cons r ts =>
+        simp only [encodeMultipart, List.length_append, List.length_cons] at ih ⊢
+        have : 1 ≤ (encFrame false q).length := by
+          simp only [encFrame]; split <;> simp
+        omega
+  have tl : totalLen chunks = chunks.flatten.length := by simp [totalLen, List.length_flatten]
+  unfold recvMultipart
+  rw [recvLoop_flat, hc, hb1, List.append_assoc, recvFlat_cmd, hb2, if_pos rfl]
+  have hfuel : ps.length ≤ totalLen chunks := by
+    rw [tl, hc]; simp only [List.length_append]; have := hge ps; omega
+  have := recvFlat_multipart ps (totalLen chunks) [] rest hne hlen hfuel
+  simpa using this
+
+/-- **The full statement fails for the code as it is**: `handshake` does not look at the bytes it reads, so 64 zero
+bytes – no ZMTP signature, version 0, no mechanism – are accepted (open finding C19-F2). -/
+theorem C19_handshake_cex :
+    Current.validate = false ∧ (handshake Current.validate HS_ROUTER [List.replicate 64 0]).status = .ok ∧
+    ¬ ValidGreeting (List.replicate 64 0) := by
+  refine ⟨by decide, by decide, ?_⟩
+  rintro ⟨pad, major, minor, tail, hg, _, _, _⟩
+  have := congrArg (fun l => l.head?) hg
+  simp at this
+
+/-! ## (g) wire messages: identities, delimiter, signature, four frames -/
+
+/-- **deserialize ∘ serialize = id** for every identity list (none of which is the delimiter itself), any number of
+frames ≥ 4 (extra buffers included): the delimiter may sit at any position. -/
+theorem C19_deserialize_serialize (sign : List Bytes → Bytes) (jsonOk : Bytes → Bool) (ids frames : List Bytes)
+    (hid : DELIM ∉ ids) (hlen : 4 ≤ frames.length) (hj : ∀ f ∈ frames.take 4, jsonOk f = true) :
+    deserialize sign jsonOk (serialize sign ids frames) = .ok (ids, frames) := by
+  unfold deserialize serialize
+  have : ids ++ [DELIM, sign frames] ++ frames = ids ++ DELIM :: (sign frames :: frames) := by simp
+  rw [this, splitDelim_serial ids _ hid]
+  simp [decodeFrames_ok jsonOk 4 frames hlen hj]
+
+/-- a frame list without the delimiter is rejected -/
+theorem C19_deserialize_no_delim (sign : List Bytes → Bytes) (jsonOk : Bytes → Bool) (wire : List Bytes) (h : DELIM ∉ wire) :
+    deserialize sign jsonOk wire = .error .noDelim := by
+  unfold deserialize; rw [splitDelim_none wire h]
+
+/-- **Only well-formed, correctly signed messages are accepted**: whatever `deserialize` accepts is
+`identities ++ [DELIM, MAC(frames)] ++ frames` with at least four decodable frames and the delimiter not among the
+identities – so a list without delimiter, with fewer than four frames after the signature, with a frame that does not
+decode or with a signature that is not the MAC of ALL the frames is rejected. -/
+theorem C19_deserialize_accepts_only (sign : List Bytes → Bytes) (jsonOk : Bytes → Bool) (wire ids frames : List Bytes)
+    (h : deserialize sign jsonOk wire = .ok (ids, frames)) :
+    wire = serialize sign ids frames ∧ DELIM ∉ ids ∧ 4 ≤ frames.length ∧ ∀ f ∈ frames.take 4, jsonOk f = true := by
+  unfold deserialize at h
+  cases hs : splitDelim wire with
+  | none => simp [hs] at h
+  | some p =>
+    obtain ⟨ids', after⟩ := p
+    obtain ⟨hw, hn⟩ := splitDelim_inv wire ids' after hs
+    cases after with
+    | nil => simp [hs] at h
+    | cons sg fr =>
+      simp only [hs] at h
+      cases hd : decodeFrames jsonOk 4 fr with
+      | some e => simp [hd] at h
+      | none =>
+        simp only [hd] at h
+        by_cases hsig : sign fr = sg
+        · simp only [hsig, if_true, Except.ok.injEq, Prod.mk.injEq] at h
+          obtain ⟨rfl, rfl⟩ := h
+          obtain ⟨h1, h2⟩ := decodeFrames_none_inv jsonOk 4 fr hd
+          exact ⟨by rw [hw, ← hsig]; simp [serialize], hn, h1, h2⟩
+        · simp [hsig] at h
+
+/-- fewer than four frames after the signature (or no signature frame at all): rejected -/
+theorem C19_deserialize_short (sign : List Bytes → Bytes) (jsonOk : Bytes → Bool) (ids after : List Bytes)
+    (hid : DELIM ∉ ids) (h : after.length < 5) :
+    ∃ e, deserialize sign jsonOk (ids ++ DELIM :: after) = .error e := by
+  cases hd : deserialize sign jsonOk (ids ++ DELIM :: after) with
+  | error e => exact ⟨e, rfl⟩
+  | ok p =>
+    obtain ⟨ids', frames⟩ := p
+    obtain ⟨hw, hn, hl, _⟩ := C19_deserialize_accepts_only sign jsonOk _ ids' frames hd
+    have h1 := splitDelim_serial ids after hid
+    have h2 : splitDelim (ids ++ DELIM :: after) = some (ids', sign frames :: frames) := by
+      rw [hw]; unfold serialize
+      have : ids' ++ [DELIM, sign frames] ++ frames = ids' ++ DELIM :: (sign frames :: frames) := by simp
+      rw [this]; exact splitDelim_serial ids' _ hn
+    rw [h1] at h2
+    simp only [Option.some.injEq, Prod.mk.injEq] at h2
+    obtain ⟨_, rfl⟩ := h2
+    simp only [List.length_cons] at h
+    omega
+
+/-- non-vacuity: two identities, a delimiter, and a second delimiter among the extra buffers -/
+example : deserialize (fun _ => [7]) (fun _ => true) [[1], [2], DELIM, [7], [3], [4], [5], [6], DELIM] =
+    .ok ([[1], [2]], [[3], [4], [5], [6], DELIM]) := by rfl
+
+/-! ## (h) every message type of the shell channel -/
+
+/-- the names in the tables read off `shell_handler` / `control_listen` pair every request type with ITS reply type -/
+theorem C19_reply_table_matching : ∀ p ∈ SHELL_REPLY_TABLE ++ CONTROL_REPLY_TABLE, p.2 = matchingReply p.1 := by decide
+
+/-- the shape the model of the handlers relies on, read off the source on every run: every one-reply branch sends exactly
+once on the requesting socket with the request's identities and header, busy is sent first and idle last, the silent
+branches send nothing, and the send sites of the execute branch are the ones `shellHandle` has. -/
+theorem C19_handler_shape_tied :
+    SHELL_BRANCH_SHAPE_OK = true ∧ SHELL_BUSY_FIRST = true ∧ SHELL_IDLE_LAST = true ∧
+    SHELL_SILENT = [N_comm_close, N_comm_msg, N_comm_open] ∧
+    EXEC_SENDS = [(N_execute_input, false, true), (N_execute_reply, true, true), (N_error, false, true), (N_status, false, true),
+                  (N_execute_result, false, true), (N_execute_reply, true, true)] ∧
+    CONTROL_REPLY_QUEUES_SHUTDOWN = true ∧ Current.catchAll = true := by decide
+
+def RepliedShell (m : Bytes) : Bool := (SHELL_REPLY_TABLE.lookup m).isSome
+
+/-- what one handled shell request must look like on the wire -/
+structure ShellOK (ids : List Bytes) (i : Info) (outs : List KOut) : Prop where
+  busy : outs.head? = some (pub i N_status .busy)
+  idle : outs.getLast? = some (pub i N_status .idle)
+  parent : ∀ o ∈ outs, o.parent = i.header
+  chans : ∀ o ∈ outs, o.chan = .shell ∨ (o.chan = .iopub ∧ o.idents = [])
+  reply : (outs.filter (fun o => o.chan = .shell)).map (fun o => (o.mtype, o.idents)) =
+            if RepliedShell i.mtype then [(matchingReply i.mtype, ids)] else []
+
+/-- **Every request type**: a handled shell request – whatever its type, whatever the interpreter or the parser did – is
+bracketed by busy … idle on iopub, every emission carries the request's header as parent, and there is exactly one message
+on the requesting socket, of the matching `*_reply` type and addressed to the request's identities, when the type is one
+the kernel answers; none for `comm_*` and for unknown types. -/
+theorem C19_shell_every_type (catchAll : Bool) (run : Nat → CellResult) (s : KState) (ids : List Bytes) (i : Info)
+    (hc : (shellHandle catchAll run s ids i).crashed = false) :
+    ShellOK ids i (shellHandle catchAll run s ids i).outs := by
+  have m1 : matchingReply N_execute_request = N_execute_reply := by decide
+  have m2 : matchingReply N_is_complete_request = N_is_complete_reply := by decide
+  have r1 : RepliedShell N_execute_request = true := by decide
+  have r2 : RepliedShell N_is_complete_request = true := by decide
+  by_cases he : i.mtype = N_execute_request
+  · rw [shellHandle_exec _ _ _ _ _ he]
+    cases hr : run i.cell <;>
+      exact ⟨by simp, by simp, by simp [pub, rep], by simp [pub, rep], by simp [pub, rep, he, r1, m1]⟩
+  · by_cases hi : i.mtype = N_is_complete_request
+    · rw [shellHandle_isc _ _ _ _ _ hi] at hc ⊢
+      cases hq : isComplete catchAll i.code i.parse with
+      | crash => simp [hq] at hc
+      | complete => exact ⟨by simp, by simp, by simp [pub, rep], by simp [pub, rep], by simp [pub, rep, hi, r2, m2]⟩
+      | incomplete n => exact ⟨by simp, by simp, by simp [pub, rep], by simp [pub, rep], by simp [pub, rep, hi, r2, m2]⟩
+      | invalid => exact ⟨by simp, by simp, by simp [pub, rep], by simp [pub, rep], by simp [pub, rep, hi, r2, m2]⟩
+    · rw [shellHandle_tbl _ _ _ _ _ he hi]
+      cases hl : SHELL_REPLY_TABLE.lookup i.mtype with
+      | none =>
+        exact ⟨by simp, by simp, by simp [pub], by simp [pub], by simp [pub, RepliedShell, hl]⟩
+      | some ty =>
+        have hm : ty = matchingReply i.mtype :=
+          C19_reply_table_matching (i.mtype, ty) (List.mem_append_left _ (lookup_mem _ _ _ hl))
+        exact ⟨by simp, by simp, by simp [pub, rep], by simp [pub, rep], by simp [pub, rep, RepliedShell, hl, hm]⟩
+
+/-- line numbers the parser reports lie inside the source (assumption about CPython, checked on every generated code) -/
+def LinenoSane (code : List Nat) : ParseOutcome → Prop
+  | .ok => True
+  | .exc _ _ none => True
+  | .exc _ _ (some none) => False
+  | .exc _ _ (some (some n)) => n ≤ (splitNl code).length
+
+/-- **`is_complete_request` is total over the parse outcomes**: parsed → complete / incomplete (indent of the last line);
+ANY exception whose text is not an end-of-input message – a SyntaxError as well as a RecursionError, MemoryError or
+UnicodeEncodeError from the parser – → invalid; an end-of-input message → incomplete.  Never an exception out of the
+handler when every exception is caught (the code as it is). -/
+theorem C19_is_complete_total (code : List Nat) (p : ParseOutcome) (hl : LinenoSane code p) :
+    isComplete true code p ≠ .crash ∧
+    (p = .ok → isComplete true code p = if lastIndent code = 0 then .complete else .incomplete (lastIndent code)) ∧
+    (∀ sy ln, p = .exc sy false ln → isComplete true code p = .invalid) ∧
+    (∀ sy ln, p = .exc sy true ln → ∃ n, isComplete true code p = .incomplete n ∧ lastIndent code ≤ n) := by
+  refine ⟨?_, ?_, ?_, ?_⟩
+  · cases p with
+    | ok => simp only [isComplete]; split <;> simp
+    | exc sy eo ln =>
+      cases eo
+      · simp [isComplete]
+      · rcases ln with _ | _ | n
+        · simp [isComplete]
+        · exact absurd hl (by simp [LinenoSane])
+        · cases n with
+          | zero => simp only [isComplete]; simp; split <;> simp
+          | succ n =>
+            have hn : n < (splitNl code).length := by simp only [LinenoSane] at hl; omega
+            simp only [isComplete]
+            simp [List.getElem?_eq_getElem hn]
+            split <;> simp
+  · intro hp; subst hp; simp [isComplete]
+  · intro sy ln hp; subst hp; simp [isComplete]
+  · intro sy ln hp; subst hp
+    rcases ln with _ | _ | n
+    · exact ⟨_, by simp [isComplete], Nat.le_refl _⟩
+    · exact absurd hl (by simp [LinenoSane])
+    · cases n with
+      | zero =>
+        simp only [isComplete]; simp
+        split
+        · exact ⟨_, rfl, by omega⟩
+        · exact ⟨_, rfl, Nat.le_refl _⟩
+      | succ n =>
+        have hn : n < (splitNl code).length := by simp only [LinenoSane] at hl; omega
+        simp only [isComplete]
+        simp [List.getElem?_eq_getElem hn]
+        split
+        · exact ⟨_, rfl, by omega⟩
+        · exact ⟨_, rfl, Nat.le_refl _⟩
+
+/-- so the handler of the code as it is never lets an exception of the parser escape … -/
+theorem C19_shell_never_crashes (run : Nat → CellResult) (s : KState) (ids : List Bytes) (i : Info)
+    (hl : LinenoSane i.code i.parse) : (shellHandle Current.catchAll run s ids i).crashed = false := by
+  have hc : Current.catchAll = true := by decide
+  rw [hc]
+  by_cases he : i.mtype = N_execute_request
+  · rw [shellHandle_exec _ _ _ _ _ he]; cases run i.cell <;> rfl
+  · by_cases hi : i.mtype = N_is_complete_request
+    · rw [shellHandle_isc _ _ _ _ _ hi]
+      have := (C19_is_complete_total i.code i.parse hl).1
+      cases hq : isComplete true i.code i.parse <;> simp_all
+    · rw [shellHandle_tbl _ _ _ _ _ he hi]
+      cases SHELL_REPLY_TABLE.lookup i.mtype <;> rfl
+
+/-- … whereas a handler for SyntaxError only lets a RecursionError through: busy is broadcast, then no reply and no idle -/
+theorem C19_regress_narrow_except (run : Nat → CellResult) (s : KState) (ids : List Bytes) :
+    let i : Info := { header := 1, mtype := N_is_complete_request, parse := .exc false false none }
+    (shellHandle false run s ids i).crashed = true ∧ (shellHandle false run s ids i).outs = [pub i N_status .busy] ∧
+    (shellHandle true run s ids i).outs = [pub i N_status .busy, rep .shell ids i N_is_complete_reply .invalid, pub i N_status .idle] := by
+  refine ⟨?_, ?_, ?_⟩ <;> simp [shellHandle, isComplete, isCompleteSub, show N_is_complete_request ≠ N_execute_request by decide]
+
+/-- the indentation loop computes the leading blanks of the text after the last newline -/
+example : lastIndent [105, 102, 32, 120, 58, 10, 32, 32, 121] = 2 ∧ specIndent [105, 102, 32, 120, 58, 10, 32, 32, 121] = 2 := by decide
+
+/-! ## (i) control, heartbeat -/
+
+/-- **Control channel**: a request of a type in the control table gets exactly one reply, of the matching type, on the
+control socket, addressed to the request's identities with its header as parent – and queues the session shutdown; any
+other type gets nothing. -/
+theorem C19_control_reply (ids : List Bytes) (i : Info) :
+    (i.mtype = N_shutdown_request →
+      controlHandle ids i = ([rep .control ids i (matchingReply i.mtype)], true)) ∧
+    (i.mtype ≠ N_shutdown_request → controlHandle ids i = ([], false)) := by
+  have hl : CONTROL_REPLY_TABLE.lookup N_shutdown_request = some N_shutdown_reply := by decide
+  have hm : matchingReply N_shutdown_request = N_shutdown_reply := by decide
+  have hq : CONTROL_REPLY_QUEUES_SHUTDOWN = true := by decide
+  constructor
+  · intro h
+    simp only [controlHandle, h, hl, hm, hq]
+  · intro h
+    unfold controlHandle
+    have : CONTROL_REPLY_TABLE.lookup i.mtype = none := by
+      simp only [CONTROL_REPLY_TABLE, List.lookup]
+      have : (i.mtype == [115, 104, 117, 116, 100, 111, 119, 110, 95, 114, 101, 113, 117, 101, 115, 116]) = false := by
+        simpa [N_shutdown_request] using h
+      simp [this]
+    rw [this]
+
+/-- **Heartbeat**: the echo of a REQ ping (`[empty delimiter, payload]`, however fragmented) is byte-identical to the ping -/
+theorem C19_heartbeat_echo (m rest : Bytes) (chunks : List Bytes) (hm : m.length < 2 ^ 64)
+    (hc : chunks.flatten = encodeMultipart [[], m] ++ rest) :
+    ∃ cs', hbEcho chunks = .ok (encodeMultipart [[], m], cs') ∧ cs'.flatten = rest := by
+  have henc : encodeSingle m = encodeMultipart [[], m] := by
+    simp only [encodeSingle, encodeMultipart, encFrame, sendShortMax, sendMultipartShortMax, flagMore, flagLast,
+      flagLongInc, sendLongLenBytes]
+    by_cases h : m.length ≤ 255 <;> simp [h]
+  have h := C19_single m rest chunks hm (by rw [hc, henc])
+  unfold hbEcho
+  cases hr : recvSingle chunks with
+  | error e => simp [hr] at h
+  | ok p =>
+    obtain ⟨x, r⟩ := p
+    simp only [hr] at h
+    obtain ⟨rfl, h2⟩ := h
+    exact ⟨r, by simp only [henc], h2⟩
+
+/-! ## (j) the session: every sequence of messages on every channel, and its end -/
+
+/-- what a history entry must look like -/
+def EntryOK (E : Env) (t : Entry) : Prop :=
+  (t.before.up = false → t.outs = [] ∧ t.after.up = false) ∧
+  (t.before.up = true → (t.ch = .iopub ∨ t.ch = .stdin ∨ t.ch = .hb) → t.outs = [] ∧ t.after.up = true) ∧
+  (t.before.up = true → (t.ch = .shell ∨ t.ch = .control) →
+    match deserialize E.sign E.jsonOk t.wire with
+    | .error _ => t.outs = [] ∧ t.after.up = false ∧ t.after.k = t.before.k       -- never executed, never answered
+    | .ok (ids, frames) =>
+      if t.ch = .shell then
+        (shellHandle E.catchAll E.run t.before.k ids (E.info frames)).crashed = false →
+          ShellOK ids (E.info frames) t.outs ∧ t.after.up = true
+      else
+        t.after.k = t.before.k ∧
+        ((E.info frames).mtype = N_shutdown_request →
+          t.outs = [rep .control ids (E.info frames) N_shutdown_reply] ∧ t.after.up = false) ∧
+        ((E.info frames).mtype ≠ N_shutdown_request → t.outs = [] ∧ t.after.up = true))
+
+theorem chanStep_ok (E : Env) (s : Sess) (ch : Chan) (w : List Bytes) (h : SessInv s) :
+    EntryOK E ⟨s, ch, w, (chanStep E s ch w).2, (chanStep E s ch w).1⟩ := by
+  refine ⟨?_, ?_, ?_⟩
+  · intro hu
+    simp only at hu
+    simp only [chanStep_down E s ch w hu]
+    exact ⟨by trivial, hu⟩
+  · intro hu hch
+    simp only at hu hch
+    simp only [chanStep_other E s ch w hch]
+    exact ⟨by trivial, hu⟩
+  · intro hu hch
+    simp only at hu hch ⊢
+    rcases hch with rfl | rfl
+    · rw [chanStep_shell E s w hu]
+      cases hd : deserialize E.sign E.jsonOk w with
+      | error e => exact ⟨rfl, hkStep_shutdown_down s h, by simp⟩
+      | ok p =>
+        obtain ⟨ids, frames⟩ := p
+        simp only [if_true]
+        intro hc
+        simp only [hc]
+        exact ⟨C19_shell_every_type _ _ _ _ _ hc, hu⟩
+    · rw [chanStep_control E s w hu]
+      cases hd : deserialize E.sign E.jsonOk w with
+      | error e => exact ⟨rfl, hkStep_shutdown_down s h, by simp⟩
+      | ok p =>
+        obtain ⟨ids, frames⟩ := p
+        simp only [show (Chan.control = Chan.shell) = False by simp, if_false]
+        have hm : matchingReply N_shutdown_request = N_shutdown_reply := by decide
+        refine ⟨?_, ?_, ?_⟩
+        · split <;> simp
+        · intro ht
+          have := (C19_control_reply ids (E.info frames)).1 ht
+          simp only [this]
+          exact ⟨by rw [ht, hm], hkStep_shutdown_down s h⟩
+        · intro ht
+          have := (C19_control_reply ids (E.info frames)).2 ht
+          simp only [this]
+          exact ⟨by trivial, hu⟩
+
+/-- **Every sequence of messages.**  For ANY sequence of multipart messages arriving on the shell, control, iopub and stdin
+connections of a session, every entry of the history is as it must be: a message that does not deserialize (no delimiter,
+too few frames, undecodable frame, wrong signature) is never executed and never answered (and ends the session, as coded);
+every accepted shell request gets its busy … idle bracket and exactly one reply of the matching type addressed to its own
+identities (none for `comm_*` / unknown types); `shutdown_request` on control gets exactly one `shutdown_reply` on control
+and ends the session, other control types and everything on iopub / stdin get nothing; after the end nothing is sent. -/
+theorem C19_session_every_sequence (E : Env) (msgs : List (Chan × List Bytes)) (s : Sess) (h : SessInv s) :
+    ∀ t ∈ trace E s msgs, EntryOK E t := by
+  induction msgs generalizing s with
+  | nil => simp [trace]
+  | cons m rest ih =>
+    obtain ⟨ch, w⟩ := m
+    intro t ht
+    simp only [trace, List.mem_cons] at ht
+    rcases ht with rfl | ht
+    · exact chanStep_ok E s ch w h
+    · exact ih _ (chanStep_inv E s ch w h) t ht
+
+/-- **Execution counter over every sequence**: after any sequence of messages on any channels the counter has advanced by
+exactly the number of accepted `execute_request`s with `store_history` handled while the session was up – rejected
+messages, every other type (known, `comm_*`, unknown), and everything on the other channels leave it alone. -/
+theorem C19_session_counter (E : Env) (msgs : List (Chan × List Bytes)) (s : Sess) :
+    (finalSess E s msgs).k.count = s.k.count + ((trace E s msgs).filter (countsExecute E)).length := by
+  induction msgs generalizing s with
+  | nil => simp [finalSess, trace]
+  | cons m rest ih =>
+    obtain ⟨ch, w⟩ := m
+    simp only [finalSess, trace, List.filter_cons]
+    rw [ih, chanStep_count E s ch w]
+    split <;> simp <;> omega
+
+/-! ## (k) shutdown ends the session exactly once -/
+
+/-- **Shutdown ends the session exactly once.**  Whatever is put on the housekeeping queue (registrations, EOFs of
+connections, stdout, any number of `shutdown` messages from the control channel, from listeners that met an exception and
+from the start-up timeout) and however often `session_shutdown()` is called from outside, in any order: the body of
+`session_shutdown` (delete the context, close the servers, cancel the tasks) has run exactly once if the session is down
+and not at all if it is up; and one `shutdown` message or one outside call anywhere in the sequence is enough to end it. -/
+theorem C19_shutdown_once (evs : List SessEv) :
+    (sessRun {} evs).shutdowns = (if (sessRun {} evs).up then 0 else 1) ∧
+    ((SessEv.hk .shutdown ∈ evs ∨ SessEv.external ∈ evs) → (sessRun {} evs).up = false ∧ (sessRun {} evs).shutdowns = 1) := by
+  have hinv0 : SessInv ({} : Sess) := ⟨by simp, by simp⟩
+  have hinv := sessRun_inv evs {} hinv0
+  refine ⟨hinv.2, ?_⟩
+  intro hm
+  have key : ∀ (evs : List SessEv) (s : Sess), SessInv s → (SessEv.hk .shutdown ∈ evs ∨ SessEv.external ∈ evs) →
+      (sessRun s evs).up = false := by
+    intro evs
+    induction evs with
+    | nil => intro s _ h; simp at h
+    | cons e rest ih =>
+      intro s hs h
+      by_cases he : e = SessEv.hk .shutdown ∨ e = SessEv.external
+      · show (sessRun (sessEv s e) rest).up = false
+        apply sessRun_down_stays rest
+        rcases he with rfl | rfl
+        · exact hkStep_shutdown_down s hs
+        · exact (sessionShutdown_inv s hs).2
+      · show (sessRun (sessEv s e) rest).up = false
+        apply ih _ (sessEv_inv s e hs)
+        simp only [List.mem_cons] at h
+        rcases h with (h | h) | (h | h)
+        · exact absurd (Or.inl h.symm) he
+        · exact Or.inl h
+        · exact absurd (Or.inr h.symm) he
+        · exact Or.inr h
+  have hd := key evs {} hinv0 hm
+  exact ⟨hd, by rw [hinv.2, hd]; rfl⟩
+
+/-- the same at the level of messages: however many shutdown requests, bad messages and crashes a session meets, its end
+happens once, and afterwards it stays down -/
+theorem C19_session_ends_once (E : Env) (msgs : List (Chan × List Bytes)) (s : Sess) (h : SessInv s) :
+    SessInv (finalSess E s msgs) ∧ (s.up = false → (finalSess E s msgs).up = false) := by
+  induction msgs generalizing s with
+  | nil => exact ⟨h, fun hu => hu⟩
+  | cons m rest ih =>
+    obtain ⟨ch, w⟩ := m
+    simp only [finalSess]
+    obtain ⟨i1, i2⟩ := ih _ (chanStep_inv E s ch w h)
+    refine ⟨i1, fun hu => i2 ?_⟩
+    rw [chanStep_down E s ch w hu]; exact hu
+
+/-- non-vacuity of the session theorems: the initial state satisfies the invariant -/
+example : SessInv ({} : Sess) := ⟨by simp, by simp⟩
 
 end PsModel.C19
